@@ -448,7 +448,18 @@ impl<const K: usize> Complement for Kmer<codec::dna::Dna, K, usize> {}
 
 impl<A: Codec, const K: usize> ReverseMut for Kmer<A, K, usize> {
     fn rev(&mut self) {
-        self.rev_blocks_2();
+        if A::BITS == 2 {
+            self.rev_blocks_2();
+        } else {
+            // the 2-bit block table only applies to 2-bit codecs
+            let mut ba = <usize as sealed::KmerStorage>::to_bitarray(self.bs);
+            let bs: &mut Bs = &mut ba.as_mut()[..Self::BITS];
+            bs.reverse();
+            for chunk in bs.rchunks_exact_mut(A::BITS as usize) {
+                chunk.reverse();
+            }
+            self.bs = <usize as sealed::KmerStorage>::from_bitslice(bs);
+        }
     }
 }
 
